@@ -16,6 +16,7 @@ import FpVerif.Spec.Capture
 import FpVerif.Spec.H2Fp
 import FpVerif.Spec.JA4
 import FpVerif.Model.Cert
+import FpVerif.Model.H2Resp
 /-!
 `fpdriver`: reads one operation per line on stdin, answers one line per operation on stdout with the
 MODEL's (or the SPECIFICATION's) result. The definitions evaluated here are the ones the theorems in
@@ -310,6 +311,15 @@ def handle (cmd : String) (args : List String) : String :=
   | "e2e", toks => (e2eExpected toks).getD "bad-op"
   | "pass", toks => (passExpected toks).getD "bad-op"
   | "dbuf", toks => (dbufRun toks).getD "bad-op"
+  -- C08: the status gates of the HTTP/2 response path, per status code: accepted by WriteHeader / may carry a body
+  | "h2status", toks =>
+    match (kv toks "codes") with
+    | some cs =>
+      match (cs.splitOn ",").mapM (·.toNat?) with
+      | some ns => " ".intercalate (ns.map fun c =>
+          s!"{c}:{if Fp.H2Resp.codeAccepted c then 1 else 0}/{if Fp.H2Resp.bodyAllowed c then 1 else 0}")
+      | none => "bad-op"
+    | none => "bad-op"
   | "h2rx", toks => (h2rxRun toks).getD "bad-op"
   | "h2tx", toks => (h2txRun toks).getD "bad-op"
   | "h2stx", toks => (h2stxSpec toks).getD "bad-op"
